@@ -317,12 +317,12 @@ pub fn length_check(rword: &WordView, qword: &WordView) -> (ret: bool)
 pub fn jaccard_check(rword: &WordView, qword: &WordView, tls: &mut Tls) -> (ret: bool)
     requires rword.wfs(), qword.wfs(),
     ensures final(tls).DAMLEV == old(tls).DAMLEV,
-        !qword.fin && jac_passes(rword, qword) ==> ret, // [C03 C05]
+        !qword.fin && jac_passes(rword, qword) ==> ret, // [C03 C04 C05]
         qword.fin && jac_passes(rword, qword) ==> ret, // [C13 C08]
 {
     proof { f64_obeys(); }
     let rslice = if qword.fin { rword.chars() } else { &rword.chars()[..vmin(qword.len() + 1, rword.len())] };
-    proof { if !qword.fin { assert(rslice@ =~= jac_arg(rword, qword)); } } // [C03 C05]
+    proof { if !qword.fin { assert(rslice@ =~= jac_arg(rword, qword)); } } // [C03 C04 C05]
     proof { if qword.fin { assert(rslice@ =~= jac_arg(rword, qword)); } } // [C13 C08]
     let dist = {
         let j = &mut tls.JACCARD;
